@@ -63,6 +63,7 @@ def run(cx):
         cx.run([lang, "roundtrip", "-in", path, "-out", out], timeout=2400)
         rows = vlib.read_ndjson(out)
         check_rows = []
+        ndead = 0
         for r in rows:
             res = r["res"]
             k = res.get("k")
@@ -76,6 +77,7 @@ def run(cx):
                 continue
             if k != "done":
                 cx.notes.append("%s case %s: driver result %s" % (label, r["id"], k))
+                ndead += 1
                 continue
             s = json.dumps(r["ast"])
             if '"func"' in s or "func" in r["src"]:
@@ -106,6 +108,7 @@ def run(cx):
                     {"leg": "behaviour", "src": r["src"], "orig": res["orig"], "reloaded": res["reloaded"]})
             check_rows.append({"id": r["id"], "ast": r["ast"], "hoist": r.get("hoist", []), "obs": res["reloaded"]})
         by_id = {r["id"]: r for r in rows}
+        cx.alive(ndead, len(rows), "round trip of " + label)
         mism, unknown = langlib.tlc_conform(cx, check_rows, prefix="rt_" + label.replace("-", "_"))
         unknown_total += len(unknown)
         for i, specjs in mism[:100]:
